@@ -227,6 +227,19 @@ def run(chk):
                 chk.ok('C03-P', construct, 'total map, result kept', where, key='C03-P|%s|%s' % (fq, piece))
     chk.floor('loops over split pieces in the parser', nloops, 5)
 
+    chk.rule('C03-F', 'the encoders and parsers decide what is a leaf with the element\'s own HL7 version: a leaf that is taken for a '
+                      'structure (or the reverse) because the default version\'s tables were asked is encoded as nothing -- content '
+                      'silently lost for every other version')
+    from . import forwarding as _fw
+    nfw_ = _fw.check_forwarding(chk, c, 'C03-F', ('version',), check_own=True,
+                                only_callers=lambda fq_: fq_.split('.')[0] in ('core', 'parser'),
+                                only_callees=lambda f_: f_.name in ('is_base_datatype', 'load_reference', 'find_reference',
+                                                                     'get_default_encoding_chars', 'datatype_factory'))
+    chk.floor('datatype / structure look-ups on the parse and encode paths', nfw_, 20)
+    chk.rule('C03-R', 'field repetitions are positional: every piece of a split on the repetition separator is parsed and attached, '
+                      'also an empty one')
+    repetition_pieces(chk, c, 'C03-R')
+
     # ---- O
     order_sites = ['core.ElementList.get_children', 'core.Group._get_children', 'parser.parse_message'] + list(PARSE_LOOPS)
     for fq in order_sites:
@@ -289,3 +302,43 @@ def run(chk):
         chk.ob('C03-U', '%s appends children without a structure name' % fq, ok and ok2,
                'the catch-all clause `name in (None, "ST")` over get_children() is gone: unknown children are not encoded',
                fi.loc, key='C03-U|%s' % fq)
+
+
+def repetition_pieces(chk, c, rule):
+    """Repetitions of a field carry their position only in their order (all of them are attached under the same name), so
+    -- unlike fields and components, whose names keep their slot -- not even an empty repetition may be skipped: every piece
+    of a split on the repetition separator is parsed and attached."""
+    ix = c.index
+    from . import pat
+    n = 0
+    for fq in PARSE_LOOPS + ('parser.parse_field',):
+        fi = ix.func(fq)
+        rsep = pat.vars_assigned_from(fi.node, ("encoding_chars['REPETITION']", "encoding_chars.get('REPETITION')")) | \
+            {"encoding_chars['REPETITION']"}
+
+        def over_repetitions(it):
+            if isinstance(it, ast.Call) and isinstance(it.func, ast.Name) and it.func.id == 'enumerate' and it.args:
+                it = it.args[0]
+            it = pat.inline_locals(it, fi.node)
+            return isinstance(it, ast.Call) and isinstance(it.func, ast.Attribute) and it.func.attr in ('split', 'rsplit') and \
+                it.args and norm(it.args[0]) in rsep
+        for node in own_nodes(fi.node):
+            if isinstance(node, (ast.ListComp, ast.GeneratorExp)) and len(node.generators) == 1 and over_repetitions(node.generators[0].iter):
+                n += 1
+                ifs = node.generators[0].ifs
+                chk.ob(rule, '%s: every repetition is parsed' % fq, not ifs,
+                       'repetitions are filtered by `%s`: a skipped (even empty) repetition shifts the position of the following ones' %
+                       (norm(ifs[0])[:60] if ifs else ''), '%s:%d' % (fi.module.relpath, node.lineno), key='%s|%s|comprehension' % (rule, fq))
+            if isinstance(node, ast.For) and over_repetitions(node.iter):
+                n += 1
+                g = cfg_of(fi)
+                h = g.node_of_ast.get(id(node))
+                piece = norm(node.target.elts[-1] if isinstance(node.target, ast.Tuple) else node.target)
+                sinks = {g.node_for(x) for x in ast.walk(node) if isinstance(x, ast.Call) and isinstance(x.func, ast.Attribute) and
+                         x.func.attr in ('append', 'add', 'extend') and any(piece in names_in(a) or names_in(a) & derived(node, piece) for a in x.args)}
+                from .codelemmas import loop_always_hits
+                ok = bool(sinks) and loop_always_hits(g, node, sinks)
+                chk.ob(rule, '%s: every repetition is parsed' % fq, ok,
+                       'an iteration over the repetitions can finish without attaching anything: a skipped (even empty) repetition '
+                       'shifts the position of the following ones', '%s:%d' % (fi.module.relpath, node.lineno), key='%s|%s|loop' % (rule, fq))
+    chk.floor('iterations over field repetitions', n, 1)
